@@ -33,6 +33,8 @@ Step(s, e) ==
                  ELSE IF c.api = "get" /\ c.expect = "hit" THEN
                       (IF e.ok /\ e.res = "some" /\ Len(s.opens) >= 1 /\ s.opens[1] = ex[1]
                           /\ \A i \in 1..Len(s.opens) : s.opens[i] \in {ex[1], ex[2]} THEN {} ELSE {"FoundByOthers"})
+                 ELSE IF c.api = "touch" /\ c.expect = "hit" THEN
+                      (IF e.ok /\ e.res = "true" THEN {} ELSE {"FoundByOthers"})
                  ELSE {}
         IN [s EXCEPT !.viol = @ \cup {<<e.seq, m>> : m \in v}, !.nvec = @ + 1]
     ELSE s
